@@ -4,7 +4,7 @@
    compares with the committed pin (Properties/pins/C08.txt) so that a statement cannot be weakened
    silently; `Print Assumptions` lists the axioms it depends on (none are declared by this development). *)
 From Coq Require Import NArith List Bool String.
-From Octo Require Import Model.Loops Proofs.LoopFacts Model.Socks5 Proofs.Socks5Facts.
+From Octo Require Import Model.Loops Proofs.LoopFacts Model.Socks5 Proofs.Socks5Facts Generated.LoopShapes Model.LoopShapes Proofs.LoopShapeFacts.
 Import ListNotations.
 Set Printing Width 200.
 
@@ -42,6 +42,67 @@ Definition C08_local_udp_never_wedges := @s5_udp_decode_consumes_all.
 Definition C08_OBSERVED_local_recv_error := @local_recv_error_parks_local_branch.
 
 
+(* tie A (Generated/LoopShapes.v): an event ends a service loop according to the CURRENT source tables (a Propagate point: ?, return, break, loop condition) exactly when the hand-written loop model gives Exit *)
+Definition C08_shapes_match_loops_model := @shapes_match_loops_model.
+(* the same as equalities: the source's exit set of each loop is the model's *_fatal predicate *)
+Definition C08_shapes_fatal_sets := @shapes_fatal_sets.
+(* every catalogue event goes only through points that the current source handles on the loop (Handled) or runs inside tokio::spawn (InTask); a stalling peer only through InTask points *)
+Definition C08_no_per_flow_fault_ends_service := @no_per_flow_fault_ends_service.
+(* the fault classes named by the property, one concrete event each: in the catalogue, contained, and not vacuously (each goes through at least one extracted point) *)
+Definition C08_fault_classes_contained := @c08_fault_classes_contained.
+(* the model's stalling events are exactly the refutable select! patterns of the source *)
+Definition C08_parked_is_stalling := @parked_is_stalling.
+(* the client's select! has a branch with an irrefutable pattern, so else => break cannot run (the model's cudp_enabled); the server's select! has no refutable pattern *)
+Definition C08_select_else_unreachable := @select_else_unreachable.
+(* no datagram fault ends a running association (source table and model agree), the association runs in a spawned task, UAssocEnded / LReplyTaskEnded have causes in the source *)
+Definition C08_assoc_shape_matches_model := @assoc_shape_matches_model.
+(* sensitivity: with the table of the source before 5f7202f (new_out / new_binding / send followed by ?) containment is false *)
+Definition C08_SENSITIVE_client_udp_question_marks := @pre_5f7202f_client_udp_breaks_containment.
+(* sensitivity: and the source's exit set no longer equals the model's *)
+Definition C08_SENSITIVE_client_udp_question_marks_match := @pre_5f7202f_client_udp_breaks_match.
+(* sensitivity: while let Ok(..) = listener.accept().await makes an accept error (descriptor exhaustion) fatal *)
+Definition C08_SENSITIVE_while_let_ok_accept := @while_let_ok_accept_client_breaks_containment.
+(* sensitivity: same, against the model's exit set *)
+Definition C08_SENSITIVE_while_let_ok_accept_match := @while_let_ok_accept_client_breaks_match.
+(* sensitivity: the server accept loops before 3422c50 *)
+Definition C08_SENSITIVE_server_accept_loops := @pre_3422c50_server_tcp_breaks_containment.
+(* sensitivity: a TLS handshake awaited on the accept loop is not contained even though its error is handled (stall) *)
+Definition C08_SENSITIVE_tls_handshake_on_accept_loop := @tls_handshake_on_accept_loop_breaks_containment.
+(* sensitivity: new_codec(..)? in the QUIC accept loop *)
+Definition C08_SENSITIVE_server_quic_codec := @pre_3422c50_server_quic_breaks_containment.
+(* sensitivity: break on a replayed packet + try_send(..)? ends the service; each half alone is analysed *)
+Definition C08_SENSITIVE_replayed_datagram_chain := @replayed_datagram_chain_witness.
+(* sensitivity: try_send(..)? alone is fatal as soon as an association ends *)
+Definition C08_SENSITIVE_try_send_question_mark := @try_send_question_mark_breaks_containment.
+(* sensitivity: break on an undecodable datagram *)
+Definition C08_SENSITIVE_decode_error_break := @decode_error_break_breaks_containment.
+(* a point that vanished from a table is not silently contained *)
+Definition C08_SENSITIVE_missing_point := @missing_point_is_not_contained.
+(* (recorded) source side of the local receive error observation: the pattern Some(Ok(..)) parks the branch *)
+Definition C08_OBSERVED_local_recv_error_parked := @local_recv_error_is_parked_OBSERVED.
+(* (recorded) the client's UDP loop awaits new_out / new_binding / send on its own task: their failure is handled, a stall is not contained *)
+Definition C08_OBSERVED_client_udp_setup_on_loop := @client_udp_outbound_setup_on_loop_OBSERVED.
+
+Check @C08_shapes_match_loops_model.
+Check @C08_shapes_fatal_sets.
+Check @C08_no_per_flow_fault_ends_service.
+Check @C08_fault_classes_contained.
+Check @C08_parked_is_stalling.
+Check @C08_select_else_unreachable.
+Check @C08_assoc_shape_matches_model.
+Check @C08_SENSITIVE_client_udp_question_marks.
+Check @C08_SENSITIVE_client_udp_question_marks_match.
+Check @C08_SENSITIVE_while_let_ok_accept.
+Check @C08_SENSITIVE_while_let_ok_accept_match.
+Check @C08_SENSITIVE_server_accept_loops.
+Check @C08_SENSITIVE_tls_handshake_on_accept_loop.
+Check @C08_SENSITIVE_server_quic_codec.
+Check @C08_SENSITIVE_replayed_datagram_chain.
+Check @C08_SENSITIVE_try_send_question_mark.
+Check @C08_SENSITIVE_decode_error_break.
+Check @C08_SENSITIVE_missing_point.
+Check @C08_OBSERVED_local_recv_error_parked.
+Check @C08_OBSERVED_client_udp_setup_on_loop.
 Check @C08_service_survives.
 Check @C08_server_tcp.
 Check @C08_server_quic.
@@ -64,3 +125,23 @@ Print Assumptions C08_client_udp_exit_only_on_fatal.
 Print Assumptions C08_fatal_not_in_catalogue.
 Print Assumptions C08_local_udp_never_wedges.
 Print Assumptions C08_OBSERVED_local_recv_error.
+Print Assumptions C08_shapes_match_loops_model.
+Print Assumptions C08_shapes_fatal_sets.
+Print Assumptions C08_no_per_flow_fault_ends_service.
+Print Assumptions C08_fault_classes_contained.
+Print Assumptions C08_parked_is_stalling.
+Print Assumptions C08_select_else_unreachable.
+Print Assumptions C08_assoc_shape_matches_model.
+Print Assumptions C08_SENSITIVE_client_udp_question_marks.
+Print Assumptions C08_SENSITIVE_client_udp_question_marks_match.
+Print Assumptions C08_SENSITIVE_while_let_ok_accept.
+Print Assumptions C08_SENSITIVE_while_let_ok_accept_match.
+Print Assumptions C08_SENSITIVE_server_accept_loops.
+Print Assumptions C08_SENSITIVE_tls_handshake_on_accept_loop.
+Print Assumptions C08_SENSITIVE_server_quic_codec.
+Print Assumptions C08_SENSITIVE_replayed_datagram_chain.
+Print Assumptions C08_SENSITIVE_try_send_question_mark.
+Print Assumptions C08_SENSITIVE_decode_error_break.
+Print Assumptions C08_SENSITIVE_missing_point.
+Print Assumptions C08_OBSERVED_local_recv_error_parked.
+Print Assumptions C08_OBSERVED_client_udp_setup_on_loop.
